@@ -1,4 +1,5 @@
-(* C19 -- executable model of pgpy/pgp.py PGPKeyring (as it is in /repo NOW, i.e. with the F5 repair of _add_alias).
+(* C19 -- executable model of pgpy/pgp.py PGPKeyring (as it is in /repo NOW, i.e. with the F5 repair of _add_alias and with
+   commit 48f9d25: the space-free form of an identifier is tried only when it is 8, 16 or 40 hexadecimal digits).
    No proofs in this file (Proofs/Keyring_lemmas.v), statements in Props/C19.v.
 
    Python object                         model
@@ -23,6 +24,15 @@ Definition layers := list layer.
 Definition aeqb (a b : alias) : bool := eqb_bytes a b.
 (* alias.replace(' ', '') *)
 Definition strip (a : alias) : alias := filter (fun c => negb (c =? 32)) a.
+(* PGPKeyring._unspaced: re.fullmatch(r'[0-9A-Fa-f]{40}|[0-9A-Fa-f]{16}|[0-9A-Fa-f]{8}', alias.replace(' ', '')) -- the class is
+   spelled out, so only the ASCII digits and letters match (no other Unicode digit, no trailing newline: fullmatch).
+   The correspondence run passes identifiers as UTF-8 octets: every octet of a non-ASCII character is >= 128, neither a blank nor
+   a hex digit, so the function agrees on octets and on code points. *)
+Definition hexdigit (c : Z) : bool :=
+  ((48 <=? c) && (c <=? 57)) || ((65 <=? c) && (c <=? 70)) || ((97 <=? c) && (c <=? 102)).
+Definition id_shaped (s : alias) : bool :=
+  forallb hexdigit s && (let n := Z.of_nat (length s) in (n =? 40) || (n =? 16) || (n =? 8)).
+Definition unspaced (a : alias) : alias := let s := strip a in if id_shaped s then s else a.
 
 (* m[alias] / alias in m *)
 Fixpoint lookup (a : alias) (l : layer) : option pkid :=
@@ -37,8 +47,10 @@ Definition pids (a : alias) (ls : layers) : list pkid :=
   flat_map (fun l => match lookup a l with Some k => [k] | None => [] end) ls.
 (* alias in the union of the key sets of all layers *)
 Definition contains (a : alias) (ls : layers) : bool := negb (match pids a ls with [] => true | _ => false end).
-(* PGPKeyring.__contains__ for a str *)
-Definition containsS (a : alias) (ls : layers) : bool := contains a ls || contains (strip a) ls.
+(* PGPKeyring.__contains__ for a str: `alias in aliases or self._unspaced(alias) in aliases` *)
+Definition containsS (a : alias) (ls : layers) : bool := contains a ls || contains (unspaced a) ls.
+(* before commit 48f9d25: `alias in aliases or alias.replace(' ', '') in aliases` (kept for the refutation of the old rule) *)
+Definition containsS_old (a : alias) (ls : layers) : bool := contains a ls || contains (strip a) ls.
 
 (* for depth, pkid in enumerate(pkids): self._aliases[depth][alias] = pkid
    (an IndexError would need more pkids than layers: excluded by pids_length in Proofs) *)
@@ -50,13 +62,22 @@ Fixpoint place (a : alias) (ks : list pkid) (ls : layers) : layers :=
 
 Definition nonempty (l : layer) : bool := match l with [] => false | _ => true end.
 
-(* PGPKeyring._get_key: per layer, the exact alias first, then the alias without spaces *)
+(* PGPKeyring._get_key: per layer, the exact alias first, then _unspaced(alias) (computed once, before the loop) *)
 Fixpoint get (a : alias) (ls : layers) : option pkid :=
   match ls with
   | [] => None
   | l :: r => match lookup a l with
               | Some k => Some k
-              | None => match lookup (strip a) l with Some k => Some k | None => get a r end
+              | None => match lookup (unspaced a) l with Some k => Some k | None => get a r end
+              end
+  end.
+(* before commit 48f9d25: per layer, the exact alias first, then the alias without spaces *)
+Fixpoint get_old (a : alias) (ls : layers) : option pkid :=
+  match ls with
+  | [] => None
+  | l :: r => match lookup a l with
+              | Some k => Some k
+              | None => match lookup (strip a) l with Some k => Some k | None => get_old a r end
               end
   end.
 
@@ -100,13 +121,15 @@ Section WithSort.
   Fixpoint set_last (a : alias) (k : pkid) (ls : layers) : layers :=
     match ls with [] => [[(a, k)]] | [l] => [lset a k l] | l :: r => l :: set_last a k r end.
 
-  (* PGPKeyring._add_alias as it is now *)
-  Definition add_alias (a : alias) (k : pkid) (ls : layers) : layers :=
-    if negb (containsS a ls) then set_last a k ls
+  (* PGPKeyring._add_alias as it is now; cS is `alias in self` *)
+  Definition add_alias_with (cS : alias -> layers -> bool) (a : alias) (k : pkid) (ls : layers) : layers :=
+    if negb (cS a ls) then set_last a k ls
     else if existsb (Z.eqb k) (pids a ls) then ls
     else sort_alias a (insert_free a k ls).
+  Definition add_alias := add_alias_with containsS.
 
-  (* PGPKeyring._add_alias before commit 1574c30 (kept for the regression theorem repo_loses_alias only) *)
+  (* PGPKeyring._add_alias before commit 1574c30 (kept for the regression theorem repo_loses_alias only; `alias in self` is
+     today's, the witness history has no identifier with a blank) *)
   Fixpoint set_nth (n : nat) (a : alias) (k : pkid) (ls : layers) : layers :=
     match n, ls with O, l :: r => lset a k l :: r | S n', l :: r => l :: set_nth n' a k r | _, [] => [] end.
   Definition add_alias_repo (a : alias) (k : pkid) (ls : layers) : layers :=
@@ -139,25 +162,32 @@ Section WithSort.
   Definition todo (k : pkid) (ls : layers) : list alias :=
     flat_map (fun l => map fst (filter (fun p => snd p =? k) l)) ls.
   (* m.pop(a) on the dict that holds (a, pkid), then the re-sort when the alias is still known *)
-  Definition unstep (k : pkid) (ls : layers) (a : alias) : layers :=
+  Definition unstep_with (cS : alias -> layers -> bool) (k : pkid) (ls : layers) (a : alias) : layers :=
     let s1 := map (filter (fun p => negb (aeqb a (fst p) && (snd p =? k)))) ls in
-    if containsS a s1 then sort_alias a s1 else s1.
-  Definition unload_one (s : state) (i : kinfo) : state :=
+    if cS a s1 then sort_alias a s1 else s1.
+  Definition unstep := unstep_with containsS.
+  Definition unload_one_with (cS : alias -> layers -> bool) (s : state) (i : kinfo) : state :=
     if has_key (kid i) (keys s) then
       {| keys := filter (fun j => negb (kid j =? kid i)) (keys s);
          pubs := filter (fun p => negb (p =? kid i)) (pubs s);
          privs := filter (fun p => negb (p =? kid i)) (privs s);
-         lays := fold_left (unstep (kid i)) (todo (kid i) (lays s)) (lays s) |}
+         lays := fold_left (unstep_with cS (kid i)) (todo (kid i) (lays s)) (lays s) |}
     else s.
-  Definition unload (s : state) (k : key) : state :=
+  Definition unload_one := unload_one_with containsS.
+  Definition unload_with (cS : alias -> layers -> bool) (s : state) (k : key) : state :=
     if has_key (kid (fst k)) (keys s) then
-      let s1 := unload_one s (fst k) in
-      if kprimary (fst k) then fold_left unload_one (snd k) s1 else s1
+      let s1 := unload_one_with cS s (fst k) in
+      if kprimary (fst k) then fold_left (unload_one_with cS) (snd k) s1 else s1
     else s.
+  Definition unload := unload_with containsS.
+  (* the keyring of before commit 48f9d25: `alias in self` in _add_alias and unload was the blank-stripping membership test *)
+  Definition step_old (s : state) (o : op) : state :=
+    match o with Load k => add_key_with (add_alias_with containsS_old) s k | Unload k => unload_with containsS_old s k end.
 
   Definition step (s : state) (o : op) : state :=
     match o with Load k => add_key s k | Unload k => unload s k end.
   Definition run (ops : list op) : state := fold_left step ops init.
+  Definition run_old (ops : list op) : state := fold_left step_old ops init.
 End WithSort.
 
 (* ---- observations ---- *)
@@ -165,7 +195,11 @@ Definition find_key (k : pkid) (ks : list kinfo) : option kinfo := find (fun i =
 (* with keyring.key(str): None = KeyError *)
 Definition get_key (s : state) (a : alias) : option kinfo :=
   match get a (lays s) with Some k => find_key k (keys s) | None => None end.
-(* with keyring.key(message): the first issuer the keyring knows; None = no issuer known (the code then fails) *)
+(* before commit 48f9d25 *)
+Definition get_key_old (s : state) (a : alias) : option kinfo :=
+  match get_old a (lays s) with Some k => find_key k (keys s) | None => None end.
+(* with keyring.key(message): the first issuer the keyring knows; None = KeyError: no issuer known (the for ... else of commit
+   35c6008; an empty issuer list takes the else as well) *)
 Definition get_key_issuers (s : state) (issuers : list alias) : option kinfo :=
   match find (fun i => containsS i (lays s)) issuers with Some i => get_key s i | None => None end.
 (* fingerprints(keyhalf, keytype): None = 'any', Some true = 'public' / 'primary', Some false = 'private' / 'sub' *)
